@@ -77,8 +77,16 @@ def build(variant="plain", tag=None, repo=None):
                "-fno-sanitize-recover=undefined", "-shared-libasan",
                "-fPIC", "-shared"] + incs + srcs + ["-o", out, "-lm"]
     elif variant == "gcov":
-        cmd = ["gcc", "-O0", "-g", "--coverage", "-fPIC", "-shared"] + incs + \
-            srcs + ["-o", out, "-lm"]
+        # compile each source on its own so the .gcno/.gcda files get plain names
+        objs = []
+        for sfile in srcs:
+            o = os.path.join(dest, "qubovert", "sim", os.path.basename(sfile)[:-2] + ".o")
+            r = subprocess.run(["gcc", "-O0", "-g", "--coverage", "-fPIC", "-c", sfile, "-o", o] + incs,
+                               capture_output=True, text=True, cwd=os.path.join(dest, "qubovert", "sim"))
+            if r.returncode != 0:
+                raise BuildError("compile failed (gcov): %s" % r.stderr[-2000:])
+            objs.append(o)
+        cmd = ["gcc", "--coverage", "-shared"] + objs + ["-o", out, "-lm"]
     else:
         raise BuildError("unknown variant %r" % variant)
     cwd = os.path.join(dest, "qubovert", "sim")
